@@ -66,15 +66,17 @@ pub fn main_table(args: &[String]) {
             let via_parser = Message::from_bytes(&built).ok().map(|p| (p.class(), p.method(), p.get_type().class(), p.get_type().method()));
             // the type field is written independently of what follows: also with bodies beyond the 16-bit length
             let mut big_ok = true;
-            if m % 512 == 2 || m == 0xffe {
+            if m % 512 == 0 || m == 0xffc {
+                // methods whose low bits are clear, bodies of about 80 KB and 160 KB (length >> 16 is 1 resp. 2)
                 let blob = vec![7u8; 40000];
-                let mut bb = Message::builder(t, TransactionId::from(5));
-                bb.add_raw_attribute(RawAttribute::new(AttributeType::new(0x7f31), &blob)).unwrap();
-                bb.add_raw_attribute(RawAttribute::new(AttributeType::new(0x7f32), &blob)).unwrap();
-                bb.add_raw_attribute(RawAttribute::new(AttributeType::new(0x7f33), &blob)).unwrap();
-                bb.add_raw_attribute(RawAttribute::new(AttributeType::new(0x7f34), &blob)).unwrap();
-                let out = bb.build();
-                big_ok = out[..2] == w && out[4..8] == [0x21, 0x12, 0xa4, 0x42];
+                for nblobs in [2u16, 4] {
+                    let mut bb = Message::builder(t, TransactionId::from(5));
+                    for k in 0..nblobs {
+                        bb.add_raw_attribute(RawAttribute::new(AttributeType::new(0x7f31 + k), &blob)).unwrap();
+                    }
+                    let out = bb.build();
+                    big_ok = big_ok && out[..2] == w && out[4..8] == [0x21, 0x12, 0xa4, 0x42];
+                }
             }
             let f = if bytes == w && built[..2] == w && big_ok && via_parser == Some((c, m, c, m)) { u16::from_be_bytes(w) as u32 } else { 1 << 20 };
             writeln!(out, "{}", json!({"k": "enc", "class": class_name(c), "method": m, "f": f, "bytes": bytes})).unwrap();
